@@ -73,6 +73,38 @@ def prune_builds(keep=4):
         shutil.rmtree(d, ignore_errors=True)
 
 
+_dep_cache = {}
+
+
+def deps_hash(src):
+    """hash of a source file and every harness file it includes (transitively)"""
+    if src in _dep_cache:
+        return _dep_cache[src]
+    import re
+    seen, todo = {}, [ROOT / src]
+    while todo:
+        f = todo.pop()
+        if f in seen or not f.exists():
+            continue
+        txt = f.read_bytes()
+        seen[f] = txt
+        for m in re.finditer(rb'#include\s+"([^"]+)"', txt):
+            name = m.group(1).decode()
+            for base in (f.parent, ROOT / 'harness', ROOT / 'targets'):
+                cand = base / name
+                if cand.exists():
+                    todo.append(cand)
+                    break
+    h = hashlib.sha1()
+    for f in sorted(seen):
+        h.update(str(f.relative_to(ROOT)).encode())
+        h.update(seen[f])
+    if 'interp_main.hpp' in ' '.join(str(f) for f in seen):
+        h.update((ROOT / 'engine' / 'rc_engine.cpp').read_bytes())
+    _dep_cache[src] = h.hexdigest()
+    return _dep_cache[src]
+
+
 class Unit:
     """One executable. src relative to ROOT; defines: dict; std: '17'; kind: 'asan'|'plain'|'tsan'|'fuzz'."""
 
@@ -98,7 +130,7 @@ class Unit:
         return f
 
     def key(self):
-        return sha(harness_hash(), repo_hash(), self.compiler, ' '.join(self.flags()), self.src, self.engine)[:16]
+        return sha(deps_hash(self.src), repo_hash(), self.compiler, ' '.join(self.flags()), self.src, self.engine)[:16]
 
     def exe(self):
         return tree_dir() / ('%s.%s' % (self.name, self.key()))
